@@ -221,6 +221,8 @@ class Ipmi(bmc.Bmc, chassis.Chassis, dcmi.Dcmi, fru.Fru, picmg.Picmg, hpm.Hpm,
             except CompletionCodeError as e:
                 if e.cc == msgs.constants.CC_NODE_BUSY:
                     continue
+                else:
+                    raise
         else:
             raise RetryError()
 
